@@ -60,6 +60,14 @@ CLAIMS = {
         "text": "Proved for all inputs on the Coq model of the report writer, whose layout tables (columns, header shapes, gaps, sheet-size formulas, repair flags) are regenerated from the source on every run: each transaction, yearly line, balance, holder total, fraction and Summary line of the window is written on exactly one row of its table, at table start + index in the time-sorted list; that row carries ComputedData's figures (running sums, sold %, amount, proceeds, cost, gain, LONG/SHORT) and the k/n labels of GainLossSet's numbering (whose functional specification is proved in C10); row ranges are disjoint; no write leaves a sheet while at most 21 holders have a balance (bound shown tight by a witness, finding F12); the Legend states the method(s) and the filters. That the .ods holds the modelled cells is not proved: it is checked cell by cell on every run (values, sheet names, order and sizes; generated multi-asset reports x 5 countries / 6 language packs), and an independent oracle reads the file against ComputedData and the input.",
         "note": "The theorems concern the model. Styles, static label texts (checked only to be non-empty) and template sizes are inputs. Sold % and running sums are ComputedData's. Labels get an independent count only for monotone local dates (F9). Known finding F12 (more than 21 holders with a balance overflow the Tax sheet). F10 and F2 are repaired in /repo; their replays run first on every run.",
         "technique": "Coq proof over an executable layout model with translated tables + cell-by-cell differential correspondence (fresh interpreter per report) + independent table-level oracle", "design_ref": "6 C13"},
+    "C16": {
+        "text": "PARTIAL. Proved over a control-flow model of rp2_main._rp2_main_internal and tables regenerated from the working tree on every run (country tables, template/catalogue/plugin inventory, repair flags): templates exist for every (country, generator of that country, language the country ships); generator discovery finds exactly the configured generators; a supported, valid run exits 0 having written exactly prefix+method|mixed+_+report for every configured generator, under the hypotheses not (jp with -f and -t) and at most 21 holders per asset (refutation witnesses for both, and for jp's default language). Only corresponded: that the real generators fail exactly under the modelled conditions, and everything below RP2's control flow: real subprocess runs of the five entry points over methods x shipped languages x {none, from, to, both} including mid-year and no-taxable-event windows x 6 input shapes, [accounting_methods] schedules, 21/22 holders, -n, and rejected combinations. Oracle: exit 0 and every configured report present and readable. Correspondence: exit status and file list equal MainRun.run.",
+        "note": "Findings F6 (jp default language ja has no templates), F7 (jp rejects -f together with -t after two reports were written), F12 (more than 21 holders) are in KNOWN_FINDINGS.txt with their refutation theorems; F2, F4, F10 are repaired in /repo (replays in corpus/C16 run first; the property file does not compile on a tree without those repairs). Report generators enter the model as 'succeeds unless a known condition holds' (their internals are C13/C14/C15/C20). The input facts the model receives (taxable types in the window, hidden summary year, holders, negative balance) are computed by the harness.",
+        "technique": "Coq proof over translated tables (finite forallb lifted by forallb_forall) + CLI matrix correspondence + oracle", "design_ref": "6 C16"},
+    "C18": {
+        "text": "PARTIAL. Proved over the import and call-site tables regenerated from every *.py under src/rp2: every import is on the allow-list and none is a networking, process or foreign-code facility; every dynamic import has the constant prefix rp2.plugin.; no exec/eval/compile, process or network call site; every file-modifying call site is one of the modelled ones, each at most once; every file a modelled run writes lies in {./log/rp2_*.log} U {outdir/prefix+label+_+report}, which cannot coincide with a path that ends neither in .log nor in _<report name>. Only corresponded: real runs (valid matrix plus 12 kinds of invalid input x 5 entry points) under a PEP 578 audit hook: no network or process event, every written/created/renamed/removed path inside the output directory or ./log and inside the model's write set, SHA-256 of input and config unchanged, before/after snapshot of the temp tree, no new network-capable module loaded. A self-test proves the hook fires.",
+        "note": "C extensions that bypass audit events are not observed. rp2_config's own open(ini, 'w') is listed as a modelled site and is not run. Runs use PYTHONDONTWRITEBYTECODE=1. The allow/deny lists are policy (harness/translate/policy_l6.py), not derived from rp2.",
+        "technique": "Coq proof over translated import/call-site tables + audit-hook correspondence + hook self-test", "design_ref": "6 C18"},
     "C19": {
         "text": "Proved on the model for the source as repaired (row map emptied per asset, guarded year lookup; both read from the source as flags, so the property file does not compile on a tree without the repairs), under row ids distinct within an asset: after an asset's tables the transaction-to-row map is exact on the transactions shown and empty elsewhere, whatever earlier assets left; every linked cell of a gain/loss row points to '<asset> In-Out', to the row that was written from that very transaction; a subject hidden by the window carries no link; a Summary line links to the first gain/loss row of its year (local years monotone, F9) or carries no link, and the lookup never fails; refutation witnesses (vm_compute) for the unrepaired generator on the stored F3/F2 inputs. Whether the file contains these formulas is corresponded, not proved: every HYPERLINK of every generated report is parsed, dereferenced and compared field by field with the input transaction, and the link map is compared with the model.",
         "note": "F9: with mixed UTC offsets the rows of one local year may be split and the Summary link goes to the first row of the last group (known finding). F3 and F2 are repaired in /repo; their replays run first on every run.",
